@@ -1605,9 +1605,6 @@ def main() -> None:
     if old != text:
         with open(out, "w") as f:
             f.write(text)
-    side = os.path.join(LEAN, "MypyVerif", "Gen", "Schemas.json")
-    with open(side, "w") as f:
-        json.dump(res, f, indent=1, default=list)
 
 
 if __name__ == "__main__":
